@@ -17,6 +17,7 @@ pub(crate) mod c13;
 pub(crate) mod c14;
 pub(crate) mod c15;
 pub(crate) mod c16;
+pub(crate) mod c17;
 pub(crate) mod c18;
 pub(crate) mod panics;
 pub(crate) mod shard;
@@ -53,6 +54,7 @@ pub(crate) fn run(id: &str, opts: &Opts) -> Option<i32> {
         "C14" => c14::run(opts, &mut report),
         "C15" => c15::run(opts, &mut report),
         "C16" => c16::run(opts, &mut report),
+        "C17" => c17::run(opts, &mut report),
         "C18" => c18::run(opts, &mut report),
         _ => return None,
     }
